@@ -192,8 +192,9 @@ def programs(tier):
     if tier == 'quick':
         return [('p_float', (20, False)), ('p_float', (6, True)), ('p_int', (20, False)), ('p_int', (7, True)),
                 ('p_read_function_table', None)]
-    return [('p_float', (20, False)), ('p_float', (6, True)), ('p_float', (-8, True)), ('p_float', (-9, True)),
-            ('p_int', (20, False)), ('p_int', (9, True)), ('p_read_function_table', None)]
+    # fixed lengths 7, 8, 9 for the value clauses of fortran_float (each ~1-7 min of solver time), integers up to 13
+    return [('p_float', (20, False)), ('p_float', (6, True)), ('p_float', (-8, True)), ('p_float', (-9, True)), ('p_float', (-10, True)),
+            ('p_int', (20, False)), ('p_int', (13, True)), ('p_read_function_table', None)]
 
 
 def replay(obname, model, result):
